@@ -401,13 +401,7 @@ def checkDates (c : Ctx) : Option (List Tag) :=
     | none => none
     | some b => some (a ++ b)
 
-/-! ## pins: the text the hand-written scanners stand for -/
-
-def pinnedParseDateRegex : String :=
-  "\n    ^\n    ( [0-9]{4}-[0-9]{2}-[0-9]{2} )  # YYYY-MM-DD\n    (?: \\s+ | T )\n    ( [0-9]{2}:[0-9]{2} )  # hh:mm\n    (?: : [0-9]{2} )?  # ss\n    \\s*\n    (?:\n      (?: GMT | UTC )? ( [+-] [0-9]{2} ) :? ( [0-9]{2} )  # ZZzz\n    | [+]? (<TZ>)\n    ) ?\n    $\n"
-
-def pinnedBoilerplateRegex : String :=
-  "\n  ^ YEAR -\n| - MO -\n| - DA \\s\n| \\s HO :\n| : MI (?:[+]|$)\n| [+] ZONE $\n"
+/-! ## pins -/
 
 /-- `re.VERBOSE | re.UNICODE` -/
 def pinnedFlags : Nat := 96
